@@ -461,6 +461,15 @@ func c07CRun(c C07CCase, st *kit.Stats) error {
 		lo[i] = t0.Add(time.Duration(c.Px[i])*time.Millisecond - 2*time.Millisecond)
 		hi[i] = t1.Add(time.Duration(c.Px[i])*time.Millisecond + 2*time.Millisecond)
 	}
+	// a transaction queued while the keys are alive and executed after they expired must see them gone:
+	// a command looks at the clock when it runs, not when it was received
+	txc := emu.Dial()
+	txc.Do("MULTI")
+	for i := 0; i < n; i++ {
+		txc.Do("EXISTS", name(i))
+		txc.Do("TYPE", name(i))
+	}
+	txc.Do("DBSIZE")
 	end := time.Now()
 	for i := range hi {
 		if hi[i].After(end) {
@@ -589,6 +598,27 @@ func c07CRun(c C07CCase, st *kit.Stats) error {
 			}
 		}
 		time.Sleep(time.Duration(c.StepMs) * time.Millisecond / 4)
+	}
+	if time.Now().After(end) {
+		v, err := txc.Do("EXEC")
+		if err != nil || v.K != kit.KArr || len(v.A) != 2*n+1 {
+			return fmt.Errorf("EXEC of the transaction queued before the deadlines: %v %v", v, err)
+		}
+		for i := 0; i < n; i++ {
+			if lo[i].IsZero() {
+				continue // the key was re-created by a SETNX/RENAMENX probe and deleted again
+			}
+			if !kit.Equal(v.A[2*i], kit.Int(0)) || v.A[2*i+1].S != "none" {
+				return fmt.Errorf("a transaction queued before the deadline of %s and executed %v after it still sees the key: EXISTS -> %s, TYPE -> %s", name(i), time.Since(hi[i]).Round(time.Millisecond), v.A[2*i], v.A[2*i+1])
+			}
+		}
+		if !kit.Equal(v.A[2*n], kit.Int(0)) {
+			h, _ := conn.Do("EXISTS", "helper")
+			if !(kit.Equal(h, kit.Int(1)) && kit.Equal(v.A[2*n], kit.Int(1))) {
+				return fmt.Errorf("DBSIZE inside a transaction executed after every deadline is %s", v.A[2*n])
+			}
+		}
+		st.Class("transaction-queued-before-deadline-executed-after")
 	}
 	st.ClassN("decided-observations", decided)
 	st.ClassN("deadline-crossings-observed", crossings)
